@@ -6,13 +6,15 @@ CONSTANTS
   KeepStatus = FALSE
   RecheckAtApply = TRUE
   RecheckISR = TRUE
+  KeepOnFail = FALSE
   CountAll = FALSE
   InitISRs = {{"r1"}, {"r1", "r2"}, {"r1", "r2", "r3"}, {"r1", "r2", "r3", "r4"}}
   L0 = "r1"
   PairSels = {"cur", "first"}
   MaxOps = 6
+  Faults = FALSE
   MaxPend = 2
-INVARIANTS TypeOK C07_LeaderInISR StatusLive WitnessesAreGood
+INVARIANTS TypeOK C07_LeaderInISR StatusLive WitnessesAreGood PersistedISR
 PROPERTIES StepsOK
 VIEW MCView
 CHECK_DEADLOCK FALSE
